@@ -75,6 +75,10 @@ def safe_readlines(handle, hint=-1):
 
 def safe_readable(handle):
     """Attempts to find if the handle is readable without throwing an error."""
+    if isinstance(handle, int):
+        # a redirect marker (2 for ``o>e``, subprocess.STDOUT for ``e>o``) or a
+        # raw descriptor left in a stream slot: nothing to read from here
+        return False
     try:
         status = handle.readable()
     except (OSError, ValueError):
